@@ -81,39 +81,56 @@ Proof.
     + discriminate.
 Qed.
 
-(* prepareTernaryOpForAST does nothing without '?' *)
-Definition no_q (ts : list ptok) : Prop := forall t, In t ts -> snd t <> TQ.
+(* token lists without a given kind of token *)
+Definition alltok (p : tok -> bool) (ts : list ptok) : Prop := forall t, In t ts -> p (snd t) = false.
 
-Lemma prep_no_q : forall n ts, no_q ts -> prep n ts = ts.
+Lemma alltok_app : forall p a b, alltok p a -> alltok p b -> alltok p (a ++ b).
+Proof. intros p a b Ha Hb t Ht. apply in_app_or in Ht. destruct Ht; [apply Ha|apply Hb]; assumption. Qed.
+
+Lemma alltok_one : forall (p : tok -> bool) t, p (snd t) = false -> alltok p [t].
+Proof. intros p t H x [<-|[]]. exact H. Qed.
+
+Lemma alltok_wrap : forall (p : tok -> bool) b l ts, p TLP = false -> p TRP = false -> alltok p ts -> alltok p (wrap b l ts).
+Proof.
+  intros p [] l ts H1 H2 H; [|exact H]. intros t [<-|Ht]; [exact H1|].
+  apply in_app_or in Ht. destruct Ht as [Ht|[<-|[]]]; [apply H; exact Ht|exact H2].
+Qed.
+
+Lemma frag1_alltok : forall (p : tok -> bool) e,
+  (forall n, p (TId n) = false) -> (forall n, p (TNum n) = false) -> (forall o, p (TOp (bin_opr o)) = false) ->
+  p TLP = false -> p TRP = false ->
+  frag1 e = true -> alltok p (render e).
+Proof.
+  intros p e Hi Hn Ho Hl Hr. induction e; intros Hf; try discriminate; cbn [frag1] in Hf; cbn [render].
+  - apply alltok_one; apply Hi.
+  - apply alltok_one; apply Hn.
+  - apply andb_true_iff in Hf. destruct Hf.
+    apply alltok_app; [apply alltok_wrap; auto|].
+    apply (alltok_app p [_]); [apply alltok_one; apply Ho|apply alltok_wrap; auto].
+  - apply (alltok_app p [_]); [apply alltok_one; exact Hl|].
+    apply alltok_app; [auto|apply alltok_one; exact Hr].
+Qed.
+
+(* prepareTernaryOpForAST does nothing without '?' *)
+Definition is_q (t : tok) : bool := match t with TQ => true | _ => false end.
+
+Lemma prep_no_q : forall n ts, alltok is_q ts -> prep n ts = ts.
 Proof.
   induction n; intros ts H; [reflexivity|]. destruct ts as [|t r]; [reflexivity|].
   cbn [prep]. assert (Ht := H t (or_introl eq_refl)).
   assert (Hr : prep n r = r) by (apply IHn; intros x Hx; apply H; right; exact Hx).
-  destruct (snd t); try (rewrite Hr; reflexivity). contradiction.
+  destruct (snd t); try (rewrite Hr; reflexivity). discriminate.
 Qed.
 
-Lemma no_q_app : forall a b, no_q a -> no_q b -> no_q (a ++ b).
-Proof. intros a b Ha Hb t Ht. apply in_app_or in Ht. destruct Ht; [apply Ha|apply Hb]; assumption. Qed.
-
-Lemma no_q_wrap : forall b l ts, no_q ts -> no_q (wrap b l ts).
+(* the "X ) ( name ) =" heuristic of compileTerm needs an '=' token *)
+Lemma no_eq_not_decl_like : forall l b, alltok is_eq l -> decl_like_from b l = false.
 Proof.
-  intros [] l ts H; [|exact H]. intros t [<-|Ht]; [discriminate|].
-  apply in_app_or in Ht. destruct Ht as [Ht|[<-|[]]]; [apply H; exact Ht|discriminate].
-Qed.
-
-Lemma no_q_one : forall t, snd t <> TQ -> no_q [t].
-Proof. intros t H x [<-|[]]. exact H. Qed.
-
-Lemma frag1_no_q : forall e, frag1 e = true -> no_q (render e).
-Proof.
-  induction e; intros Hf; try discriminate; cbn [frag1] in Hf; cbn [render].
-  - apply no_q_one; discriminate.
-  - apply no_q_one; discriminate.
-  - apply andb_true_iff in Hf. destruct Hf.
-    apply no_q_app; [apply no_q_wrap; auto|].
-    apply (no_q_app [_]); [apply no_q_one; discriminate|apply no_q_wrap; auto].
-  - apply (no_q_app [_]); [apply no_q_one; discriminate|].
-    apply no_q_app; [auto|apply no_q_one; discriminate].
+  induction l as [|t r IH]; intros b H; [reflexivity|].
+  cbn [decl_like_from]. rewrite IH by (intros x Hx; apply H; right; exact Hx). rewrite orb_false_r.
+  destruct (snd t); try reflexivity.
+  unfold fnptr_pattern. destruct r as [|t1 [|t2 r2]]; try reflexivity.
+  rewrite (H t2) by (right; right; left; reflexivity). cbn [st0 bef].
+  destruct b as [|m1 [|m2 [|m3 b3]]]; try reflexivity. rewrite !andb_false_r. reflexivity.
 Qed.
 
 (* from the invariant to [parse] *)
@@ -141,9 +158,13 @@ Proof.
 Qed.
 
 Theorem parse_render_stage1 : forall cpp e,
-  frag1 e = true -> decl_like (render e) = false -> parse cpp (render e) = Some (tree_of e).
+  frag1 e = true -> parse cpp (render e) = Some (tree_of e).
 Proof.
-  intros cpp e Hf Hd. destruct (main1 cpp e Hf) as [HS _].
-  apply (parse_of_Sx cpp _ _ (rank e) HS); [apply rank_le| |exact Hd].
-  apply prep_no_q. apply no_q_app; [apply frag1_no_q; exact Hf|apply no_q_one; discriminate].
+  intros cpp e Hf. destruct (main1 cpp e Hf) as [HS _].
+  apply (parse_of_Sx cpp _ _ (rank e) HS); [apply rank_le| |].
+  - apply prep_no_q. apply alltok_app; [|apply alltok_one; reflexivity].
+    apply frag1_alltok; try reflexivity; try exact Hf; try (intros o; destruct o; reflexivity).
+  - unfold decl_like. apply no_eq_not_decl_like.
+    apply alltok_app; [|apply alltok_one; reflexivity].
+    apply frag1_alltok; try reflexivity; try exact Hf; try (intros o; destruct o; reflexivity).
 Qed.
